@@ -1,6 +1,23 @@
 import PyPred.Props.C12
+import PyPred.Props.C12T
 open PyPred
 #print axioms C12_fuel_mono
 #print axioms C12_deterministic
 #print axioms C12_atoms_terminate
 #print axioms C12_step_shape
+#print axioms C12_terminates
+#print axioms C12_depth_linear
+#print axioms C12_answers_above
+#print axioms C12_weight_le
+#print axioms C12_andRoot_shrinks
+#print axioms C12_size_le_weight
+#print axioms C12_measure_linear
+#print axioms C12_depth_le_size
+#print axioms C12_size_le
+#print axioms C12_optimize_total
+#print axioms C12_cost_same_answer
+#print axioms C12_calls_below
+#print axioms C12_branching
+#print axioms C12_cost_le_exp
+#print axioms C12_cost_fuel_mono
+#print axioms C12_cost_linear_aon
